@@ -149,7 +149,8 @@ def check_scalars(st):
 
 
 def check_messages(st):
-    alpha = [[], ['a'], ['curve25519-sha256', 'x@y'], ['naïve'], ['gss-gex-sha1-dZuIebMjgUqaxvbF7hDbAw==', 'b'], ['a', ' b', 'c ', '\td']]
+    alpha = [[], ['a'], ['curve25519-sha256', 'x@y'], ['naïve'], ['gss-gex-sha1-dZuIebMjgUqaxvbF7hDbAw==', 'b'], ['a', ' b', 'c ', '\td'],
+             ['a', 'b', 'a'], ['x@y', 'x@y'], ['', 'a', '', 'a']]        # a name may be listed twice: the message says so twice
     for kex, key, enc, mac in itertools.product(alpha, repeat=4):
         for follows, unused in ((False, 0), (True, 0xffffffff)):
             cli = SSH2_KexParty(enc or [''], mac or [''], ['none'], [''])
